@@ -127,7 +127,7 @@ func (g *vgen) strVal() val {
 	var s string
 	switch rapid.IntRange(0, 3).Draw(g.rt, "strsel") {
 	case 0:
-		s = rapid.SampledFrom([]string{"", "a", "hello", "\x00", "a\x00b", "é", "世界", "😀", "a😀b\U0010FFFF", "\uFFFD", "\u2028\u2029", "\"quoted\\\"", "\U00010000", "\uD7FF\uE000"}).Draw(g.rt, "sfixed")
+		s = rapid.SampledFrom([]string{"", "a", "hello", "\x00", "a\x00b", "é", "世界", "😀", "a😀b\U0010FFFF", "\U0010FC00\U0010FBFF", "\U0010FFFE!", "\U000FFFFF\U00100000", "\uFFFD", "\u2028\u2029", "\"quoted\\\"", "\U00010000", "\uD7FF\uE000"}).Draw(g.rt, "sfixed")
 	default:
 		s = rapid.StringN(0, 12, -1).Draw(g.rt, "s")
 	}
@@ -513,7 +513,7 @@ func genProgram(rt *rapid.T, n int) (src string, expect []string, vals []val) {
 
 func genScenarios(rt *rapid.T) (src string, expect []string) {
 	var sb strings.Builder
-	sb.WriteString("type wrapped struct {\n\t*js.Object\n\tN   int     `js:\"n\"`\n\tS   string  `js:\"s\"`\n\tF   float64 `js:\"some-key\"`\n\tB   bool    `js:\"b\"`\n\tXs  []int32 `js:\"xs\"`\n\tU64 uint64  `js:\"u64\"`\n}\n\ntype svc struct{ base int }\n\nfunc (s *svc) Add(a int, b float64) float64 { return float64(s.base+a) + b }\nfunc (s *svc) Name(prefix string, n ...int) string {\n\tr := prefix\n\tfor _, x := range n {\n\t\tr += \"/\" + string(rune('0'+x))\n\t}\n\treturn r\n}\nfunc (s *svc) Pair() (int, string) { return s.base, \"p\" }\n\n")
+	sb.WriteString("type wrapped struct {\n\t*js.Object\n\tN   int     `js:\"n\"`\n\tS   string  `js:\"s\"`\n\tF   float64 `js:\"some-key\"`\n\tB   bool    `js:\"b\"`\n\tXs  []int32 `js:\"xs\"`\n\tU64 uint64  `js:\"u64\"`\n\tAdd func(int) int `js:\"add\"`\n}\n\ntype svc struct{ base int }\n\nfunc (s *svc) Add(a int, b float64) float64 { return float64(s.base+a) + b }\nfunc (s *svc) Name(prefix string, n ...int) string {\n\tr := prefix\n\tfor _, x := range n {\n\t\tr += \"/\" + string(rune('0'+x))\n\t}\n\treturn r\n}\nfunc (s *svc) Pair() (int, string) { return s.base, \"p\" }\n\n")
 	sb.WriteString("func ev(src string) *js.Object { return js.Global.Call(\"eval\", src) }\n\nfunc scenarios() {\n")
 	n := rapid.IntRange(-1000, 1000).Draw(rt, "n")
 	s := rapid.SampledFrom([]string{"", "x", "héllo", "😀!", "a\x00b"}).Draw(rt, "s")
@@ -540,6 +540,9 @@ func genScenarios(rt *rapid.T) (src string, expect []string) {
 	expect = append(expect, fmt.Sprintf("W read 77 from-js %d", len(xs)))
 	sb.WriteString("\tout(\"W pass \" + d(ev(\"(function(o){ return o.n + 1; })\").Invoke(w)))\n")
 	expect = append(expect, "W pass "+numDesc(78))
+	// a function-typed field read as a value stays a method of the wrapped object (this)
+	sb.WriteString("\tw.Object.Set(\"add\", ev(\"(function(d){ this.n = this.n + d; return this.n; })\"))\n\tfv := w.Add\n\tr1 := fv(5)\n\tn1 := w.N\n\tr2 := w.Add(1)\n\tout(\"W func \" + itoa(r1) + \" \" + itoa(n1) + \" \" + itoa(r2) + \" \" + itoa(w.N))\n\tw.Object.Delete(\"add\")\n")
+	expect = append(expect, "W func 82 82 83 83")
 	// typed accessors
 	a := rapid.Int32().Draw(rt, "acc")
 	fmt.Fprintf(&sb, "\tacc := ev(\"({i: %d, f: 2.75, s: 'str', t: true, z: 0, big: 9007199254740991, neg: -9007199254740991, e: '', n: null, arr: [1, 2, 3]})\")\n", a)
